@@ -69,10 +69,11 @@ class ArrayBase:
             return f"{cls_name}<UNINITIALIZED, shape={self.shape}>"
 
     def __eq__(self, other) -> bool:
-        is_true = type(self) is type(other) and self.shape == other.shape
-        if is_true and self._array is not None:
-            is_true = np.array_equal(self.array, other.array)
-        return is_true
+        if not (type(self) is type(other) and self.shape == other.shape):
+            return False
+        if self._array is None or other._array is None:
+            return self._array is None and other._array is None
+        return np.array_equal(self._array, other._array)
 
     def __iadd__(self, other: np.ndarray):
         if self._array is not None:
